@@ -536,3 +536,40 @@ pub fn pkg_closes<const N: usize>(r: &Rec<N>, oplen: usize) -> bool {
     let (val, _n, fmt) = decode_pkglen(&r.buf, oplen);
     fmt && oplen + val == r.len
 }
+
+
+// ------------------------------------------------------------------------------ concrete twins
+/// `FIXED == 0`: every value drawn by the entry builders is symbolic (the normal case).
+/// `FIXED == n > 0`: every value drawn is the concrete pattern `n - 1` (all-zero entries for 1,
+/// all-one entries for 2), so the entries of a sequence are identical to each other. Set as a
+/// constant at the top of a `seqfx!` harness, before anything is drawn. These twins exist for
+/// changes that make the *number* of emitted entries depend on entry values (merging duplicates,
+/// skipping "empty" or "disabled" entries): with symbolic values such a change makes every length
+/// symbolic and the query undecidable in time (rule 1 of DESIGN 6.2); with equal concrete values it
+/// is decided in seconds.
+pub static mut FIXED: u8 = 0;
+
+pub trait Fx: Sized {
+    fn fx(v: u8) -> Self;
+}
+macro_rules! fx_int { ($($t:ty),*) => { $( impl Fx for $t { fn fx(v: u8) -> Self { v as $t } } )* } }
+fx_int!(u8, u16, u32, u64, usize);
+impl Fx for bool {
+    fn fx(v: u8) -> Self {
+        v != 0
+    }
+}
+impl<T: Fx + Copy, const N: usize> Fx for [T; N] {
+    fn fx(v: u8) -> Self {
+        [T::fx(v); N]
+    }
+}
+/// symbolic value, or the concrete twin's pattern
+pub fn sv<T: kani::Arbitrary + Fx>() -> T {
+    let f = unsafe { FIXED };
+    if f == 0 {
+        kani::any()
+    } else {
+        T::fx(f - 1)
+    }
+}
